@@ -705,7 +705,7 @@ theorem cutIfLong_colouring {ds ds' : DSetData} {x : Nat} (hm : Manifold3 ds) {c
     have r01 := hv.range 0 _ (by omega) r1.1 r1.2
     have vb : b = ds.opU 0 (ds.opU 1 x) := rb.2.2.2.1.symm
     subst vb
-    obtain ⟨_, _, _, _, _, _, _, _, o'⟩ := cutFace_commutes hv hdim r0.1 r0.2 r01.1 r01.2 k4
+    obtain ⟨_, _, _, _, _, _, _, _, o', _⟩ := cutFace_commutes hv hdim r0.1 r0.2 r01.1 r01.2 k4
     apply o' col hcol
     rw [hcol 0 _ (by omega) r1.1 r1.2, hcol 1 x (by omega) hx1 hx2, hcol 0 x (by omega) hx1 hx2]
   · have : ds = ds' := by
